@@ -2,7 +2,8 @@
 # tools/selftest.sh [--all] [patch ...]
 # Sensitivity self-test (DESIGN.md §3.5): apply each deliberately property-breaking,
 # test-passing change to /repo, run the owning property's quick check (with --all: every
-# check), expect exit 1 from the owner, and revert. /repo must be clean. Development
+# check), expect exit 1 from the owner, and revert. benign/*/patch.diff are behaviour-preserving
+# refactorings: every check is run and must exit 0 (false-alarm test). /repo must be clean. Development
 # tool, not one of the registered commands.
 set -u
 ALL=0; [ "${1:-}" = "--all" ] && { ALL=1; shift; }
@@ -24,12 +25,14 @@ printf "%-58s %-5s %s\n" "change" "owner" "results (check=exit)"
 for P in "${PATCHES[@]}"; do
   [ -f "$P" ] || continue
   case "$P" in
+    benign/*) NAME="benign-$(basename "$(dirname "$P")")"; OWNER="none";;
     seeded/*) NAME="$(basename "$(dirname "$P")")"; OWNER="$(python3 -c "import json;print(json.load(open('$(dirname "$P")/meta.json'))['property'])" 2>/dev/null)";;
     *) NAME="$(basename "$P" .patch)"; OWNER="${NAME%%-*}";;
   esac
   if ! git -C "$SCR" apply "/verif/$P" 2>/dev/null; then printf "%-58s %-5s %s\n" "$NAME" "$OWNER" "PATCH DOES NOT APPLY"; continue; fi
   RES=""
   CHECKS="$OWNER"; [ $ALL = 1 ] && CHECKS="C11 C12 C13 C15 C16"
+  [ "$OWNER" = none ] && CHECKS="C11 C12 C13 C15 C16"   # behaviour-preserving: every check must stay quiet
   for C in $CHECKS; do
     timeout 1800 "$SCRV/check" "$C" quick > "/tmp/selftest-$NAME-$C.log" 2>&1; RC=$?
     RES="$RES $C=$RC"
